@@ -438,6 +438,11 @@ class NativeSpec:
                     except (AttributeError, KeyError):
                         continue
                 return all(res) if nm == "forall_obj" else any(res)
+            if nm == "cast":  # a typing hint for the engine; natively the value itself
+                return self.ev(n.args[0], env)
+            if nm == "is_enum_value":
+                x, cls = self.ev(n.args[0], env), self.ev(n.args[1], env)
+                return any(x == m_.value and type(x) is type(m_.value) for m_ in cls)
             if nm == "implies":
                 return (not self.ev(n.args[0], env)) or bool(self.ev(n.args[1], env))
             if nm == "iff":
